@@ -221,7 +221,7 @@ def tlc(run, module, cfg, mode="bfs", workers=None, dump=None, sim=None, env=Non
     mv = re.search(r"Error: Action property (\S+) is violated", out)
     if mv:
         res["violated"] = mv.group(1)
-    if "Temporal properties were violated" in out:
+    if re.search(r"Temporal propert(y|ies) .*(was|were) violated", out):
         res["violated"] = "temporal"
     if "Error: Deadlock reached" in out:
         res["violated"] = "deadlock"
@@ -632,3 +632,14 @@ def build_vrt(run, name, driver_src, repo_srcs, extra_flags=()):
     if rc != 0:
         raise Infra("link of %s failed:\n%s" % (name, out[-4000:]))
     return exe
+
+
+def count_event_cases(run, trace_path):
+    """for traces whose unit of exploration is the single event: count distinct event lines as distinct cases"""
+    n = 0
+    with open(trace_path, "rb") as f:
+        for line in f:
+            run.hashes.add(hashlib.sha1(line).digest()[:10])
+            n += 1
+    run.evaluations += n
+    run.notes.append("distinct cases counted per distinct event line (%d events)" % n)
